@@ -1210,6 +1210,58 @@ func fecCaseTrain(lg *fecLogger, r *vrng, rep *vreport, id int) {
 	}
 }
 
+// TestVerifC12Fec: C12's FEC half beyond matched pairs - a decoder that has to RE-TUNE behaves the
+// same wherever in the id space the stream is: every convergence case is run twice with the same
+// random choices, once at small ids and once ending just before the sender's wrap point, and the
+// monitor outcomes (convergence, stability, recovery of the losses after it) must coincide.
+func TestVerifC12Fec(t *testing.T) {
+	synctest.Test(t, func(t *testing.T) {
+		r := fecRng(7)
+		rep := newReport("C12fec")
+		n := 40
+		if vThorough() {
+			n = 400
+		}
+		for id := 0; id < n; id++ {
+			var d, p, dr, pr int
+			if id%4 == 0 {
+				c := [][4]int{{3, 2, 10, 3}, {2, 1, 1, 1}, {10, 5, 1, 1}, {10, 3, 10, 1}, {4, 2, 10, 3}, {2, 4, 2, 1}}[(id/4)%6]
+				d, p, dr, pr = c[0], c[1], c[2], c[3]
+			} else {
+				nn, nr := 2+r.intn(9), 2+r.intn(9)
+				d, dr = 1+r.intn(nn-1), 1+r.intn(nr-1)
+				p, pr = nn-d, nr-dr
+			}
+			pre := r.intn(4)
+			seed := r.u64()
+			var keys [2][]string
+			for k, startKind := range []int{1, 5} {
+				tmp := newReport("tmp")
+				fecCaseConverge(&fecLogger{}, newRng(seed), tmp, id, d, p, dr, pr, pre, startKind)
+				for _, v := range tmp.Violations {
+					keys[k] = append(keys[k], v.Key)
+				}
+				sort.Strings(keys[k])
+				rep.Steps += tmp.Steps
+			}
+			rep.Cases++
+			rep.Monitors["fec-retune-position-independent"]++
+			if dr != d || pr != p {
+				rep.Nontrivial++
+				rep.Distribution["pair:mismatched"]++
+			} else {
+				rep.Distribution["pair:equal"]++
+			}
+			if strings.Join(keys[0], ",") != strings.Join(keys[1], ",") {
+				fecViolate(rep, "fec-offset-dependent", fmt.Sprintf("sender %d/%d, receiver %d/%d: the same run (same losses, same pre-run) gives monitor outcomes [%s] at small sequence ids and [%s] when it ends just before the id wrap",
+					d, p, dr, pr, strings.Join(keys[0], ","), strings.Join(keys[1], ",")),
+					map[string]any{"sender": []int{d, p}, "receiver": []int{dr, pr}, "pre": pre, "case_seed": seed, "seed": vSeed(), "case": id})
+			}
+		}
+		rep.write(t, "C12fec.report.json")
+	})
+}
+
 func TestVerifC16(t *testing.T) {
 	synctest.Test(t, func(t *testing.T) {
 		r := fecRng(1)
